@@ -82,6 +82,14 @@ func (c *Chaos) DropNext(key int16, n int) {
 	c.mu.Unlock()
 }
 
+// Disarm forgets response drops and stalls that were armed but not yet used.
+func (c *Chaos) Disarm() {
+	c.mu.Lock()
+	c.dropNxt = map[int16]int{}
+	c.stall = nil
+	c.mu.Unlock()
+}
+
 func (c *Chaos) Count(key int16) int {
 	c.mu.Lock()
 	defer c.mu.Unlock()
